@@ -42,6 +42,8 @@ def pFinish : Nat := 8
 inductive Elem where
   | f (v : Nat) (r : Bool)
   | bad
+  /-- a filter of the list's type that panics when called -/
+  | boom
   deriving DecidableEq, Repr
 
 structure ChainRes where
@@ -51,17 +53,21 @@ structure ChainRes where
   calls : List Nat
   /-- index of the filter whose response is returned (FilterRequest), if any -/
   res : Option Nat
+  /-- the last filter called panicked (Filter* has no recover: the panic reaches the caller) -/
+  boom : Bool := false
   deriving DecidableEq, Repr
 
 /-- the `LOOP:` of `FilterXxx`; `i` is the index of the head element. -/
 def runChain : Nat → List Elem → ChainRes
-  | _, [] => ⟨vGoOn, [], none⟩
-  | _, .bad :: _ => ⟨vGoOn, [], none⟩
+  | _, [] => { ret := vGoOn, calls := [], res := none }
+  | _, .bad :: _ => { ret := vGoOn, calls := [], res := none }
+  | i, .boom :: _ => { ret := vGoOn, calls := [i], res := none, boom := true }
   | i, .f v r :: rest =>
-    if v ≠ vGoOn then ⟨v, [i], if r then some i else none⟩
+    if v ≠ vGoOn then { ret := v, calls := [i], res := if r then some i else none }
     else
       let t := runChain (i + 1) rest
-      ⟨t.ret, i :: t.calls, if t.calls.isEmpty then (if r then some i else none) else t.res⟩
+      { ret := t.ret, calls := i :: t.calls, res := if t.calls.isEmpty then (if r then some i else none) else t.res,
+        boom := t.boom }
 
 /-! ### the server's reaction -/
 
@@ -90,6 +96,8 @@ structure St where
   calls : List (Nat × Nat) := []
   /-- the generated arms contain something the skeleton below cannot interpret -/
   unknown : Bool := false
+  /-- a filter panicked: everything up to conn.serve's deferred functions is unwound -/
+  panicked : Bool := false
   deriving DecidableEq, Repr
 
 /-- the arm of the verdict `switch` / `if` at point `pt` selected by verdict `v` (none: no arm, fall through) -/
@@ -110,6 +118,7 @@ def interp (pt idx : Nat) : List Tok → St → St × Flow
 def atPoint (ρ : Nat → ChainRes) (pt : Nat) (s : St) : St × Flow × ChainRes :=
   let r := ρ pt
   let s := { s with calls := s.calls ++ r.calls.map fun i => (pt, i) }
+  if r.boom then ({ s with panicked := true }, .ret, r) else
   match armFor pt r.ret with
   | none => (s, .next, r)
   | some toks =>
@@ -160,6 +169,7 @@ def serveHTTP (ρ : Nat → ChainRes) : St :=
   reqPoint ρ pFoundProduct s fun s =>
   reqPoint ρ pAfterLocation s fun s =>
     let s := clusterInvoke ρ s
+    if s.panicked then s else
     responseGot ρ { s with res := some (s.res.getD .internalErr) }
 
 structure ReqOut where
@@ -168,15 +178,20 @@ structure ReqOut where
   backend : Nat
   calls : List (Nat × Nat)
   unknown : Bool
+  panicked : Bool := false
   deriving DecidableEq, Repr
 
 /-- conn.serveRequest: ServeHTTP, finishRequest / prepareForCloseConn, FinishReq -/
 def serveRequest (ρ : Nat → ChainRes) : ReqOut :=
   let s := serveHTTP ρ
+  if s.panicked then
+    -- nothing of this request's response was finished; conn.serve's deferred functions run next
+    { out := none, keep := false, backend := s.backend, calls := s.calls, unknown := s.unknown, panicked := true }
+  else
   let out := if s.action == aCloseDirectly then none else some (s.wrote.getD .default200)
   let (s2, _, _) := atPoint ρ pRequestFinish { s with action := 0 }
-  { out := out, keep := s.action == aKeepAlive && s2.action == aKeepAlive, backend := s2.backend,
-    calls := s2.calls, unknown := s2.unknown }
+  { out := out, keep := s.action == aKeepAlive && s2.action == aKeepAlive && !s2.panicked, backend := s2.backend,
+    calls := s2.calls, unknown := s2.unknown, panicked := s2.panicked }
 
 structure ConnOut where
   calls : List (Nat × Nat)
@@ -184,6 +199,8 @@ structure ConnOut where
   backend : Nat
   served : Nat
   unknown : Bool
+  /-- the connection was closed when conn.serve returned -/
+  closed : Bool := true
   deriving DecidableEq, Repr
 
 def serveLoop (ρ : Nat → ChainRes) : Nat → ConnOut → ConnOut
@@ -198,11 +215,12 @@ def serveLoop (ρ : Nat → ChainRes) : Nat → ConnOut → ConnOut
 /-- conn.serve on a plain (non-TLS) connection carrying `n` pipelined requests, then EOF -/
 def serveConnR (n : Nat) (ρ : Nat → ChainRes) : ConnOut :=
   let (s, fl, _) := atPoint ρ pAccept {}
-  let acc : ConnOut := ⟨s.calls, [], 0, 0, s.unknown⟩
+  let acc : ConnOut := { calls := s.calls, outs := [], backend := 0, served := 0, unknown := s.unknown }
   let acc := if fl == .ret then acc else serveLoop ρ n acc
   -- deferred c.finish(): HandleFinish, verdict discarded
+  -- a panic inside it skips the `c.close()` that follows it in the same deferred function
   let z := ρ pFinish
-  { acc with calls := acc.calls ++ z.calls.map fun i => (pFinish, i) }
+  { acc with calls := acc.calls ++ z.calls.map fun i => (pFinish, i), closed := !z.boom }
 
 /-- the connection with filter chains `ch pt` registered at the callback points: every point sees its chain only
     through the result of `HandlerList.FilterXxx` -/
@@ -213,17 +231,19 @@ def serveConn (n : Nat) (ch : Nat → List Elem) : ConnOut := serveConnR n fun p
 def isGoOn : Elem → Bool
   | .f v _ => v == vGoOn
   | .bad => false
+  | .boom => false
 
 /-- what `FilterXxx` must do, stated without recursion over the walk: the filters before the first element that
     is not a GoOn-filter are called, plus that element if it is a filter; its verdict is returned; the response
     handed back is the one of the last filter called.  (`i` = index of the first element.) -/
 def specOf (i : Nat) (p d : List Elem) : ChainRes :=
   match d with
-  | .f v r :: _ => ⟨v, List.range' i (p.length + 1), if r then some (i + p.length) else none⟩
-  | _ => ⟨vGoOn, List.range' i p.length,
-          match p.getLast? with
-          | some (.f _ true) => some (i + p.length - 1)
-          | _ => none⟩
+  | .f v r :: _ => { ret := v, calls := List.range' i (p.length + 1), res := if r then some (i + p.length) else none }
+  | .boom :: _ => { ret := vGoOn, calls := List.range' i (p.length + 1), res := none, boom := true }
+  | _ => { ret := vGoOn, calls := List.range' i p.length,
+           res := match p.getLast? with
+             | some (.f _ true) => some (i + p.length - 1)
+             | _ => none }
 
 def specChainFrom (i : Nat) (c : List Elem) : ChainRes :=
   specOf i (c.takeWhile isGoOn) (c.dropWhile isGoOn)
